@@ -276,7 +276,7 @@ theorem planMetric_range_lra (o : Oracles) (c : MCtx) (hn : c.namesOk) (d : Loki
     unfold planMetric
     simp only [MetricQuery.rangeAgg, planSteps, hs, Bool.false_eq_true, if_false, functionOrder, orderRange, hk,
       List.foldl_append, List.foldl_cons, List.foldl_nil, applyStep, foldl_cmpStep, splSel, stepFix_identity c _ _ hstep,
-      matrixLabels, RangeAgg.isUnwrap, MetricQuery.agg?, Bool.false_and, Bool.or_self]
+      matrixLabels, RangeAgg.isUnwrap, MetricQuery.agg?, Bool.false_and, Bool.or_self, Option.isSome_none]
   rw [hplan]
   have h1 := lraPhase_ok o c hn d r.sel hm fn r.durNs hms hd r.cmp
   have h2 := h1.join hn hm (cmpStage_labels _ _ _ (lraPts_labels fn r.durNs _)) (by decide) (by decide)
@@ -393,28 +393,23 @@ theorem map_ptLabels_regrouped (o : Oracles) (c : Ctx) (d : LokiDb) (q : LogQuer
   rfl
 
 /-- **plan_metric_correct, class `aggOp by/without (…) (rangeFn(selector [d]) [cmp]) [cmp]`** (samples path, step ≤ range) -/
-theorem planMetric_agg_lra (o : Oracles) (c : MCtx) (hn : c.namesOk) (d : LokiDb) (a : VecAgg) (fn : RangeFn) (g : Grouping)
-    (hk : a.inner.kind = .lra fn) (hg : chosenGrouping a.byPrefix a.bySuffix = some g)
+theorem planMetric_agg_lra (o : Oracles) (c : MCtx) (hn : c.namesOk) (d : LokiDb) (a : VecAgg) (fn : RangeFn)
+    (hk : a.inner.kind = .lra fn)
     (hm : a.inner.sel.matchers.length ≤ 63) (hms : 1000000 ∣ a.inner.durNs) (hd : 0 < a.inner.durNs)
     (hs : takesShortcut (.agg a) = false) (hstep : c.stepNs ≤ (a.inner.durNs : Int)) :
     (evalSelA o (d.toDbM c) (planMetric c (.agg a))).map normRow = evalMetric o c d (.agg a) := by
-  have hgr : a.grouped = true := by
-    unfold VecAgg.grouped
-    unfold chosenGrouping at hg
-    cases hb : a.bySuffix with
-    | some x => simp
-    | none => rw [hb] at hg; simp only at hg; rw [hg]; simp
   have hplan : planMetric c (.agg a) =
-      finalizeMatrix (cmpOpt a.cmp (aggSel a.fn true (byWithoutTS c.toCtx (labelConds a.inner.sel).length g
+      finalizeMatrix (cmpOpt a.cmp (aggSel a.fn true (byWithoutTS c.toCtx (labelConds a.inner.sel).length (aggGrouping a)
         (cmpOpt a.inner.cmp (lraSel fn a.inner.durNs false (samplesMain c.toCtx a.inner.sel)))))) := by
     unfold planMetric
-    simp only [MetricQuery.rangeAgg, planSteps, hs, Bool.false_eq_true, if_false, functionOrder, orderAgg, orderRange, hk, hg,
+    simp only [MetricQuery.rangeAgg, planSteps, hs, Bool.false_eq_true, if_false, functionOrder, orderAgg, orderRange, hk,
       List.foldl_append, List.foldl_cons, List.foldl_nil, applyStep, foldl_cmpStep, splSel, stepFix_identity c _ _ hstep,
-      matrixLabels, RangeAgg.isUnwrap, MetricQuery.agg?, hgr, Bool.false_and, Bool.false_or, if_true, planByWithout,
+      matrixLabels, RangeAgg.isUnwrap, MetricQuery.agg?, Option.isSome_some, Bool.false_and, Bool.false_or, if_true, planByWithout,
       Bool.not_false]
   rw [hplan]
   have h1 := lraPhase_ok o c hn d a.inner.sel hm fn a.inner.durNs hms hd a.inner.cmp
-  have h2 := h1.byWithoutTS hn hm (cmpStage_labels _ _ _ (lraPts_labels fn a.inner.durNs _)) (labelConds a.inner.sel).length g
+  have h2 := h1.byWithoutTS hn hm (cmpStage_labels _ _ _ (lraPts_labels fn a.inner.durNs _)) (labelConds a.inner.sel).length
+    (aggGrouping a)
     (by simp only [List.mem_singleton, Alias.named.injEq]; str_ne) (by simp only [List.mem_singleton, Alias.named.injEq]; str_ne)
   have h3 := h2.agg a.fn a.cmp (by
     simp only [List.mem_append, List.mem_cons, List.not_mem_nil, or_false, Alias.named.injEq, not_or]
@@ -424,7 +419,9 @@ theorem planMetric_agg_lra (o : Oracles) (c : MCtx) (hn : c.namesOk) (d : LokiDb
     refine ⟨⟨by decide, ?_, ?_⟩, by decide⟩ <;> (apply Ne.symm; str_ne))]
   unfold evalMetric effWindow metricPoints
   simp only [hs, Bool.false_eq_true, if_false, MetricQuery.rangeAgg, MetricQuery.agg?, stepStage, hstep, if_true,
-    rangePoints_lra o c.toCtx d a.inner fn _ _ hk, entryMatchesW_window, aggStage_eq, hg, Option.getD_some]
+    rangePoints_lra o c.toCtx d a.inner fn _ _ hk, entryMatchesW_window, aggStage_eq]
+  show _ = sortBy (rowLe matrixKeys) (List.map Pt.row (List.map (fun p => { p with labels := ptLabels o c.toCtx d a.inner.sel p })
+    (cmpStage a.cmp (aggCore o a.fn (List.map (regroupPt o c.toCtx d a.inner.sel (aggGrouping a)) _)))))
   rw [map_ptLabels_regrouped]
   apply cmpStage_labels
   apply aggCore_regrouped
